@@ -446,7 +446,7 @@ META = {
                   "engine.url.make_url", "engine.url._parse_url",
                   "urllib.parse.parse_qsl (real, run symbolically)"],
     "bounds": {
-        "quick": {"symbolic component": "str of length 0..2 (host 1..2), 6 contexts, 6 positions",
+        "quick": {"symbolic component": "str of length 0..1 in 6 contexts, length 2 in 3 contexts (host 1..2 in all), 6 positions",
                   "table": "strings of length <= 2 over %r, None, '' in username/password/database/query key/query value; "
                            "2-tuples; two keys; %d hosts; ports %r; 6 contexts" % ("".join(ALPHABET[:15]), len(HOSTS), PORTS)},
         "thorough": {"symbolic component": "str of length 0..3 (host 1..3)", "table": "as quick plus 3-tuples of query values"},
@@ -472,6 +472,8 @@ def harnesses(tier: str) -> List[Harness]:
     for f in FOCUS:
         for c in range(len(CONTEXTS)):
             for n in range(1 if f == "host" else 0, nmax + 1):
+                if q and n == 2 and f != "host" and c not in (1, 2, 3):
+                    continue  # quick: length 2 in three of the six contexts
                 for cv in ([("host",) * n] if f == "host" else itertools.product(CLASSES, repeat=n)):
                     sl.append(dict(focus=f, ctx=c, n=n, cls=",".join(cv)))
     hs.append(Harness("component", h_component, sl, budget_s=90 if q else 800, per_path_timeout=30))
